@@ -79,16 +79,24 @@ Definition encc_view (cs : csofa) : string * json :=
    the structures that are not sofa byte arrays in id order (cc_fs is sorted by id); %TYPES from the types of the latter *)
 Definition arr_ids_of (cc : ccas) : list xid := flat_map (fun cs => match cs_arr cs with Some a => [a] | None => [] end) (cc_sofas cc).
 Definition found_of (cc : ccas) : list (xid * cfs) := filter (fun p => negb (zmem (fst p) (arr_ids_of cc))) (cc_fs cc).
-Definition view_prefix (L : lex) (s : schema) (cc : ccas) (cs : csofa) : res (list json) :=
-  match cs_arr cs with
-  | None => Ok [JObj (encc_sofa L cs)]
-  | Some a => match zlookup a (cc_fs cc) with
-              | Some cf => Ok [JObj (encc_fs L s (cc_sofas cc) (a, cf)); JObj (encc_sofa L cs)]
-              | None => Err EKey end
+(* per view: its byte array unless an earlier view has written it (seen: the ids of the arrays written so far), its sofa *)
+Fixpoint view_prefixes (L : lex) (s : schema) (cc : ccas) (seen : list xid) (vs : list csofa) : res (list (list json)) :=
+  match vs with
+  | [] => Ok []
+  | cs :: r =>
+    match cs_arr cs with
+    | Some a =>
+        if zmem a seen then do rest <- view_prefixes L s cc seen r ;; Ok ([JObj (encc_sofa L cs)] :: rest)
+        else match zlookup a (cc_fs cc) with
+             | Some cf => do rest <- view_prefixes L s cc (seen ++ [a]) r ;;
+                          Ok ([JObj (encc_fs L s (cc_sofas cc) (a, cf)); JObj (encc_sofa L cs)] :: rest)
+             | None => Err EKey end
+    | None => do rest <- view_prefixes L s cc seen r ;; Ok ([JObj (encc_sofa L cs)] :: rest)
+    end
   end.
 Definition doc_of_canon (L : lex) (s : schema) (mode : tsmode) (order : list string) (cc : ccas) : res json :=
   do vs <- mapM (fun n => match find (fun cs => String.eqb (cs_name cs) n) (cc_sofas cc) with Some cs => Ok cs | None => Err EKey end) order ;;
-  do pre <- mapM (view_prefix L s cc) vs ;;
+  do pre <- view_prefixes L s cc [] vs ;;
   do types <- ser_types s mode (map (fun p => cf_type (snd p)) (found_of cc)) ;;
   Ok (JObj (types ++ [(K_FS, JArr (List.concat pre ++ map (fun p => JObj (encc_fs L s (cc_sofas cc) p)) (found_of cc)));
                       (K_VIEWS, JObj (map encc_view vs))])).
@@ -444,6 +452,64 @@ Proof. induction 1; cbn [map]; constructor; auto. Qed.
 Lemma Forall2_map_r_rev {A B C} (g : C -> B) (R : A -> B -> Prop) l r : Forall2 (fun a c => R a (g c)) l r -> Forall2 R l (map g r).
 Proof. induction 1; cbn [map]; constructor; auto. Qed.
 
+(* ---- %TYPES does not depend on predefined types among the used types (the type of a byte array the views loop wrote still
+   counts for used_types; uima.cas.ByteArray is predefined, and transitive_closure skips predefined types) ---- *)
+Inductive dropP : list tname -> list tname -> nat -> Prop :=
+| dp_nil : dropP [] [] 0
+| dp_keep x l l' d : dropP l l' d -> dropP (x :: l) (x :: l') d
+| dp_drop x l l' d : is_predefined x = true -> dropP l l' d -> dropP (x :: l) l' (S d).
+Lemma dropP_refl z : dropP z z 0.
+Proof. induction z; constructor; assumption. Qed.
+Lemma dropP_app l l' d z : dropP l l' d -> dropP (l ++ z) (l' ++ z) d.
+Proof. induction 1; cbn [app]; [apply dropP_refl|constructor; assumption|constructor; assumption]. Qed.
+Lemma dropP_len l l' d : dropP l l' d -> (List.length l = List.length l' + d)%nat.
+Proof. induction 1; cbn [List.length]; lia. Qed.
+Lemma dropP_filter {A} (ty : A -> tname) (q : A -> bool) l :
+  (forall x, In x l -> q x = false -> is_predefined (ty x) = true) -> exists d, dropP (map ty l) (map ty (filter q l)) d.
+Proof.
+  induction l as [|x r IH]; intros H; [exists 0%nat; constructor|].
+  destruct IH as (d & HD); [intros y Hy; apply H; right; exact Hy|]. cbn [map filter]. destruct (q x) eqn:E.
+  - exists d. cbn [map]. constructor. exact HD.
+  - exists (S d). constructor; [apply H; [left; reflexivity|exact E]|exact HD].
+Qed.
+Lemma tclosure_drop s : forall n open open' d vis r, dropP open open' d -> tclosure n s vis open = Ok r ->
+  (d <= n)%nat /\ tclosure (n - d) s vis open' = Ok r.
+Proof.
+  induction n as [|k IH]; intros open open' d vis r HD H.
+  - destruct open as [|t rest]; cbn [tclosure] in H; [|discriminate]. inversion HD; subst. split; [lia|]. exact H.
+  - destruct open as [|t rest].
+    { inversion HD; subst. split; [lia|]. exact H. }
+    inversion HD as [|x l l' d0 HD'|x l l' d0 Hp HD']; subst.
+    + cbn [tclosure] in H. destruct (memb t vis) eqn:Ev.
+      { destruct (IH _ _ _ _ _ HD' H) as [Hle E]. split; [lia|]. replace (S k - d)%nat with (S (k - d)) by lia. cbn [tclosure]. rewrite Ev. exact E. }
+      destruct (is_predefined t) eqn:Ep.
+      { destruct (IH _ _ _ _ _ HD' H) as [Hle E]. split; [lia|]. replace (S k - d)%nat with (S (k - d)) by lia. cbn [tclosure]. rewrite Ev, Ep. exact E. }
+      destruct (sch_find s t) as [ti|] eqn:Et; [|discriminate].
+      destruct (IH _ _ _ _ _ (dropP_app _ _ _ _ HD') H) as [Hle E]. split; [lia|]. replace (S k - d)%nat with (S (k - d)) by lia.
+      cbn [tclosure]. rewrite Ev, Ep, Et. exact E.
+    + cbn [tclosure] in H. rewrite Hp in H. assert (H' : tclosure k s vis rest = Ok r) by (destruct (memb t vis); exact H).
+      destruct (IH _ _ _ _ _ HD' H') as [Hle E]. split; [lia|]. replace (S k - S d0)%nat with (k - d0)%nat by lia. exact E.
+Qed.
+Lemma ser_types_drop s mode used used' d t : dropP used used' d -> ser_types s mode used = Ok t -> ser_types s mode used' = Ok t.
+Proof.
+  intros HD H. destruct mode; [exact H| |exact H].
+  unfold ser_types in *. unfold types_to_include in *.
+  destruct (tclosure (closure_fuel s used) s [] used) as [names| |] eqn:E; cbn [bind] in H; try discriminate.
+  destruct (tclosure_drop s _ _ _ _ _ _ HD E) as [Hle E'].
+  assert (Hf : (closure_fuel s used - d)%nat = closure_fuel s used').
+  { unfold closure_fuel. rewrite (dropP_len _ _ _ HD). lia. }
+  rewrite Hf in E'. rewrite E'. cbn [bind]. exact H.
+Qed.
+
+Lemma flat_map_inj {A B} (g : A -> list B) l : NoDup (flat_map g l) ->
+  forall x y i, In x l -> In y l -> In i (g x) -> In i (g y) -> x = y.
+Proof.
+  induction l as [|a t IH]; intros ND x y i Hx Hy Hix Hiy; [destruct Hx|]. cbn [flat_map] in ND.
+  destruct Hx as [<-|Hx], Hy as [<-|Hy]; [reflexivity| | |exact (IH (NoDup_app_r _ _ ND) x y i Hx Hy Hix Hiy)].
+  - exfalso. apply (NoDup_app_disjoint _ _ i ND Hix). apply in_flat_map. exists y. split; assumption.
+  - exfalso. apply (NoDup_app_disjoint _ _ i ND Hiy). apply in_flat_map. exists x. split; assumption.
+Qed.
+
 (* the writer's document is the document of the canonical content of the CAS it leaves behind, with the views in the order of
    that CAS *)
 Theorem save_json_canon L s mode c d c2 cc :
@@ -453,40 +519,50 @@ Theorem save_json_canon L s mode c d c2 cc :
 Proof.
   intros HL Hsave Hwf Hpos Hid Hrw Hcan.
   (* the writer, once more, for %TYPES *)
-  pose proof Hsave as Hsave0. unfold save_json in Hsave0. apply bind_Ok in Hsave0 as ([[[c1 sofa_fs] views0] w0] & Esf & Hsave0).
+  pose proof Hsave as Hsave0. unfold save_json in Hsave0. apply bind_Ok in Hsave0 as ([[[[c1 sofa_fs] views0] wr0] w0] & Esf & Hsave0).
   cbv beta iota in Hsave0. apply bind_Ok in Hsave0 as (fss0 & Efss0 & Hsave0). apply bind_Ok in Hsave0 as (used & Eused & Hsave0).
   apply bind_Ok in Hsave0 as (types0 & Ety & Hsave0). injection Hsave0 as Hd0 Hc2.
-  destruct (save_found_stable L s c c1 sofa_fs views0 w0 Hpos Esf) as (_ & _ & Ew0). rewrite Hc2 in Ew0, Eused.
+  destruct (save_found_stable L s c c1 sofa_fs views0 wr0 w0 Hpos Esf) as (_ & _ & Ew0). rewrite Hc2 in Ew0, Eused.
   destruct (save_json_parts L s mode c d c2 HL Hsave Hwf Hpos)
     as (w & types & outs & fss & Ev & Ef & sofas0 & Ew & Hheap & Hviews & Hty & Hd & Houts & Efss & HV & HF & Hfound & Harrs & Hn & Hi).
   rewrite Ew in Ew0. inversion Ew0; subst w0. clear Ew0.
   assert (Htypes : types0 = types).
   { rewrite <- Hd0 in Hd. inversion Hd as [Hl]. exact (proj1 (app_tail2 _ _ _ _ _ _ Hl)). }
   subst types0. clear Hd0 Hty.
-  rewrite <- Hviews in Houts, Harrs.
+  assert (Htv : tviews c = tviews c2) by (unfold tviews; rewrite Hviews; reflexivity).
+  rewrite Htv in Houts. rewrite <- Hviews in Harrs.
   unfold refs_wfb in Hrw. rewrite Ew in Hrw. rewrite !andb_true_iff in Hrw. destruct Hrw as [[Hnonull Harrsch] Hsofaslot].
   pose proof (mapM_Forall2 _ _ _ Houts) as FO.
   (* the canonical content *)
-  unfold canon_json in Hcan. rewrite Ew in Hcan. cbn [bind] in Hcan. unfold canon_of in Hcan.
+  unfold canon_json in Hcan. rewrite Ew in Hcan. cbn [bind] in Hcan. unfold canon_of, listed in Hcan.
   change (fun o : oid => match hget (c_heap c2) o with
                          | Some f => match o_id f with Some i => do cf <- canon_fs s c2 f ;; Ok (i, cf) | None => Err EValue end
                          | None => Err EAttribute end) with (canon_item s c2) in Hcan.
+  fold (found_list c2 w) in Hcan.
   apply bind_Ok in Hcan as (items & Eitems & Hcan). apply bind_Ok in Hcan as (sofas & Esofas & Hcan). inversion Hcan; subst cc. clear Hcan.
   destruct (mapM_app_inv _ _ _ _ Eitems) as (rs1 & rs2 & E1 & E2 & ->). clear Eitems.
   pose proof (mapM_Forall2 _ _ _ Esofas) as FS.
   pose proof (Forall2_map_l snd (fun o p => canon_item s c2 o = Ok p) _ _ (mapM_Forall2 _ _ _ E2)) as F2. cbv beta in F2.
   (* ids *)
-  assert (Hfound' : forall io, In io (sort_ids (w_all w)) -> found_okP s c2 io) by (intros io Hio; apply Hfound; apply (proj1 (sort_ids_In _ _)); exact Hio).
-  assert (Hids2 : map fst rs2 = map fst (sort_ids (w_all w))).
+  assert (Hfound' : forall io, In io (found_list c2 w) -> found_okP s c2 io) by (intros io Hio; apply Hfound; exact (in_found_list c2 w io Hio)).
+  assert (Hids2 : map fst rs2 = map fst (found_list c2 w)).
   { apply (Forall2_keys _ fst fst _ _ F2). intros io p Hio E. destruct (canon_item_inv _ _ _ _ E) as (f & cf & Hg & Hi' & _).
     destruct (Hfound' io Hio) as (f' & Hg' & _ & Hi''). rewrite Hg in Hg'. inversion Hg'; subst f'. rewrite Hi' in Hi''. inversion Hi'' as [H0]. exact H0. }
-  assert (Hids1 : map fst rs1 = flat_map (arr_ids c2) (c_views c2)).
-  { rewrite (canon_items_ids _ _ _ _ E1). unfold sofa_arrays. apply arrays_ids_flat. }
+  assert (Hids1 : map fst rs1 = flat_map (arr_id c2) (sofa_arrays_once c2)) by exact (canon_items_ids _ _ _ _ E1).
+  unfold ids_distinctb in Hid. rewrite Ew in Hid. apply znodup_iff in Hid. apply NoDup_app_r in Hid.
   assert (Hnd : NoDup (map fst (rs1 ++ rs2))).
-  { unfold ids_distinctb in Hid. rewrite Ew in Hid. apply znodup_iff in Hid. apply NoDup_app_r in Hid.
-    rewrite map_app, Hids1, Hids2. unfold sofa_arrays in Hid. rewrite arrays_ids_flat in Hid.
+  { rewrite map_app, Hids1, Hids2.
     eapply Permutation_NoDup; [|exact Hid]. eapply Permutation_trans; [apply Permutation_app_comm|].
-    apply Permutation_app_head. apply Permutation_map. apply Permutation_sym. apply sort_ids_is_perm. }
+    apply Permutation_app_head. apply Permutation_map. unfold found_list, unwritten. apply filter_perm. apply Permutation_sym. apply sort_ids_is_perm. }
+  assert (Hsa_in : forall o, In o (sofa_arrays_once c2) <-> In o (sofa_arrays c2)).
+  { intros o. rewrite <- !omem_In, sofa_arrays_once_mem. reflexivity. }
+  (* two sofa byte arrays with the same id are the same object *)
+  assert (Harr_inj : forall o o' i, In o (sofa_arrays c2) -> In o' (sofa_arrays c2) -> In i (arr_id c2 o) -> In i (arr_id c2 o') -> o = o').
+  { intros o o' i Ho Ho'. apply (flat_map_inj (arr_id c2) (sofa_arrays_once c2) (NoDup_app_r _ _ Hid)); apply Hsa_in; assumption. }
+  assert (Hsa_v : forall o, In o (sofa_arrays c2) <-> exists v, In v (c_views c2) /\ s_arr (v_sofa v) = Some o).
+  { intros o. unfold sofa_arrays. rewrite in_flat_map. split; intros (v & Hv & H); exists v; (split; [exact Hv|]).
+    - destruct (s_arr (v_sofa v)) as [o'|]; [|destruct H]. destruct H as [->|[]]. reflexivity.
+    - rewrite H. left. reflexivity. }
   (* the sofas *)
   assert (Hnames : NoDup (map cs_name sofas)).
   { rewrite (Forall2_map_r_eq _ (fun v => s_name (v_sofa v)) cs_name _ _ FS (fun a b _ H => proj1 (proj2 (proj2 (canon_sofa_fields c2 a b H))))).
@@ -511,15 +587,19 @@ Proof.
   assert (Harrids : forall a, In a (arr_ids_of CC) <-> In a (map fst rs1)).
   { intros a. unfold arr_ids_of. cbn [cc_sofas CC]. rewrite Hids1. split; intros H; apply in_flat_map in H; apply in_flat_map.
     - destruct H as (cs & Hcs & Ha). apply (Permutation_in _ PSL) in Hcs. destruct (Forall2_In_r _ _ _ _ FS Hcs) as (v & Hv & Ec).
-      exists v. split; [exact Hv|]. pose proof (proj1 (canon_sofa_arr _ _ _ Ec)) as Ea. unfold arr_ids. rewrite Ea in Ha.
-      destruct (s_arr (v_sofa v)) as [o|]; [|exact Ha]. destruct (hget (c_heap c2) o) as [f|]; [|exact Ha]. destruct (o_id f); exact Ha.
-    - destruct H as (v & Hv & Ha). destruct (Forall2_In_l _ _ _ v FS Hv) as (cs & Hcs & Ec). exists cs. split; [exact (InSL cs Hcs)|].
-      rewrite (proj1 (canon_sofa_arr _ _ _ Ec)). unfold arr_ids in Ha. destruct (s_arr (v_sofa v)); [|exact Ha].
-      destruct (hget (c_heap c2) o); [|exact Ha]. destruct (o_id f); exact Ha. }
+      pose proof (proj1 (canon_sofa_arr _ _ _ Ec)) as Ea. rewrite Ea in Ha.
+      destruct (s_arr (v_sofa v)) as [o|] eqn:Eo; [|destruct Ha]. exists o. split; [apply Hsa_in, Hsa_v; exists v; split; assumption|].
+      unfold arr_id. destruct (hget (c_heap c2) o) as [f|]; [|destruct Ha]. destruct (o_id f); exact Ha.
+    - destruct H as (o & Ho & Ha). apply Hsa_in, Hsa_v in Ho. destruct Ho as (v & Hv & Eo).
+      destruct (Forall2_In_l _ _ _ v FS Hv) as (cs & Hcs & Ec). exists cs. split; [exact (InSL cs Hcs)|].
+      rewrite (proj1 (canon_sofa_arr _ _ _ Ec)), Eo. unfold arr_id in Ha.
+      destruct (hget (c_heap c2) o) as [f|]; [|destruct Ha]. destruct (o_id f); exact Ha. }
   assert (Hfound_of : found_of CC = rs2).
   { unfold found_of. cbn [cc_fs CC]. rewrite filter_sort_by, filter_app, (filter_none _ rs1), (filter_all _ rs2), app_nil_l.
-    - apply sort_by_of_sorted. assert (E : map fst rs2 = map fst (sort_by fst (w_all w))) by (rewrite <- sort_ids_eq; exact Hids2).
-      exact (eq_ind_r (StronglySorted Z.le) (sort_by_sorted fst (w_all w)) E).
+    - apply sort_by_of_sorted.
+      assert (E : map fst rs2 = map fst (sort_by fst (unwritten (sofa_arrays c2) (w_all w)))).
+      { rewrite Hids2. unfold found_list, unwritten. rewrite sort_ids_eq, filter_sort_by. reflexivity. }
+      exact (eq_ind_r (StronglySorted Z.le) (sort_by_sorted fst _) E).
     - intros p Hp. apply negb_true_iff. destruct (zmem (fst p) (arr_ids_of CC)) eqn:E; [|first [reflexivity|exact E]]. apply zmem_In, Harrids in E. exfalso.
       apply (NoDup_app_disjoint (map fst rs1) (map fst rs2) (fst p)); [rewrite <- map_app; exact Hnd|exact E|apply in_map; exact Hp].
     - intros p Hp. apply negb_false_iff. apply zmem_In. apply Harrids. apply in_map. exact Hp. }
@@ -531,41 +611,81 @@ Proof.
     destruct (canon_item_inv _ _ _ _ Ep) as (f' & cf & Hg' & Hip & Ecf & Esnd). rewrite Hg in Hg'. inversion Hg'; subst f'.
     rewrite Hio' in Hip. inversion Hip as [Hfst]. destruct p as [ip cfp]. cbn [fst snd] in *. subst cfp ip.
     apply (enc_fs_canon L s c2 f (fst io) m cf SL Hio' Hok Em Ecf HSO).
-    intros Harr ti fd o Hti Hfd Hnp Hsl. apply (proj1 (sort_ids_In _ _)) in Hio. destruct io as [i0 o0]. cbn [fst snd] in *.
+    intros Harr ti fd o Hti Hfd Hnp Hsl. apply (in_found_list c2 w) in Hio. destruct io as [i0 o0]. cbn [fst snd] in *.
     destruct (ref_resolves_feature s c2 w Ew Hheap Hnonull Harrsch Hsofaslot i0 o0 f ti fd o Hio Hg Hti Harr Hfd Hnp Hsl) as (i' & Er & _).
     unfold ref_json, ref_id in Er. destruct (hget (c_heap c2) o) as [fo|] eqn:Ego; [|discriminate]. cbn [bind] in Er.
     destruct (o_id fo) as [j|] eqn:Ejo; [|discriminate]. exists fo, j. split; [reflexivity|exact Ejo]. }
-  assert (Hused : used = map (fun p => cf_type (snd p)) rs2).
-  { apply Forall2_map_eq. apply (Forall2_shared _ _ _ _ _ _ F2 (mapM_Forall2 _ _ _ Eused)). intros io p t Hio Ep Et.
-    destruct (canon_item_inv _ _ _ _ Ep) as (f & cf & Hg & _ & Ecf & Esnd). unfold fs_at in Et. rewrite Hg in Et. cbn [bind] in Et.
-    inversion Et. rewrite Esnd. symmetry. exact (canon_fs_type _ _ _ _ Ecf). }
+  (* %TYPES: the used types are those of everything the traversal found, the byte arrays the views loop wrote included *)
+  set (ty := fun io : xid * oid => match hget (c_heap c2) (snd io) with Some f => o_type f | None => ""%string end).
+  assert (Hused : used = map ty (sort_ids (w_all w))).
+  { apply Forall2_map_eq. apply (Forall2_impl_in _ _ _ _ (mapM_Forall2 _ _ _ Eused)). intros io t _ Et. unfold fs_at in Et. unfold ty.
+    destruct (hget (c_heap c2) (snd io)); [|discriminate]. cbn [bind] in Et. inversion Et. reflexivity. }
+  assert (Hused2 : map (fun p => cf_type (snd p)) rs2 = map ty (found_list c2 w)).
+  { apply (Forall2_map_r_eq _ ty (fun p => cf_type (snd p)) _ _ F2). intros io p _ Ep.
+    destruct (canon_item_inv _ _ _ _ Ep) as (f & cf & Hg & _ & Ecf & Esnd). unfold ty. rewrite Hg, Esnd. exact (canon_fs_type _ _ _ _ Ecf). }
+  assert (Hty2 : ser_types s mode (map (fun p => cf_type (snd p)) rs2) = Ok types).
+  { destruct (dropP_filter ty (fun io => negb (omem (snd io) (sofa_arrays c2))) (sort_ids (w_all w))) as (dd & HD).
+    - intros io _ Hq. apply negb_false_iff, omem_In, Hsa_v in Hq. destruct Hq as (v & Hv & Eo).
+      destruct (Harrs v _ Hv Eo) as (f & i & Hg & [Ht _] & _). unfold ty. rewrite Hg. apply String.eqb_eq in Ht. rewrite Ht. reflexivity.
+    - rewrite Hused2. rewrite Hused in Ety. exact (ser_types_drop s mode _ _ dd types HD Ety). }
   (* the views loop *)
-  assert (Hper : Forall2 (fun cs out => view_prefix L s CC cs = Ok (fst out) /\ snd out = encc_view cs) sofas outs).
-  { apply (Forall2_shared _ _ _ _ _ _ FS FO). intros v cs out Hv Ec Eo.
-    destruct (view_out_inv _ _ _ _ _ Eo) as (mids & arrs & ms & Emids & Ea & Es & ->). cbn [fst snd].
-    assert (Hai : forall o, s_arr (v_sofa v) = Some o -> exists f i, hget (c_heap c2) o = Some f /\ o_id f = Some i).
-    { intros o Eo'. destruct (Harrs v o Hv Eo') as (f & i & Hg & _ & Hi'). exists f, i. split; assumption. }
-    rewrite (enc_sofa_canon L c2 v ms cs Es Ec Hai). split; [|exact (view_json_canon c2 v mids cs Emids Ec)].
-    destruct (canon_sofa_arr _ _ _ Ec) as [Earr _]. unfold view_prefix. rewrite Earr.
-    destruct (arr_out_inv _ _ _ _ _ Ea) as [[-> ->]|(o & f & m & Eo' & Eg & Em & ->)]; [reflexivity|]. rewrite Eo', Eg.
-    destruct (Harrs v o Hv Eo') as (f' & i & Eg' & [Ht Hok] & Hi'). rewrite Eg in Eg'. inversion Eg'; subst f'. rewrite Hi'.
-    assert (Ho : In o (sofa_arrays c2)) by (unfold sofa_arrays; apply in_flat_map; exists v; split; [exact Hv|rewrite Eo'; left; reflexivity]).
-    destruct (mapM_In_l _ _ _ E1 o Ho) as (p & Hp & Ep). destruct (canon_item_inv _ _ _ _ Ep) as (f' & cf & Eg'' & Hip & Ecf & Esnd).
-    rewrite Eg in Eg''. inversion Eg''; subst f'. rewrite Hi' in Hip. inversion Hip as [Hfst]. destruct p as [ip cfp]. cbn [fst snd] in *. subst cfp ip.
-    assert (Hz : zlookup i (sort_by fst (rs1 ++ rs2)) = Some cf).
-    { rewrite (zlookup_perm i _ (rs1 ++ rs2)); [apply zlookup_nodup; [exact Hnd|apply in_or_app; left; exact Hp]| |apply sort_by_is_perm].
-      eapply Permutation_NoDup; [apply Permutation_map, Permutation_sym, sort_by_is_perm|exact Hnd]. }
-    cbn [cc_fs CC]. rewrite Hz. change (cc_sofas (mkCcas SL (sort_by fst (rs1 ++ rs2)))) with SL.
-    assert (Hm : m = encc_fs L s SL (i, cf)).
-    { apply (enc_fs_canon L s c2 f i m cf SL Hi' Hok Em Ecf HSO). intros Hna. apply String.eqb_eq in Ht. rewrite Ht in Hna. discriminate. }
-    rewrite Hm. reflexivity. }
-  assert (Hpre : mapM (view_prefix L s CC) sofas = Ok (map fst outs)).
-  { apply Forall2_mapM. apply Forall2_map_r_rev. apply (Forall2_impl_in _ _ _ _ Hper). intros cs out _ [A _]. exact A. }
-  assert (Hvj : map snd outs = map encc_view sofas).
-  { apply Forall2_map_eq. apply Forall2_map_r_rev. apply (Forall2_impl_in _ _ _ _ Hper). intros cs out _ [_ B]. exact B. }
+  assert (Hper : forall vs wr sofas' outs',
+            Forall2 (fun v cs => canon_sofa c2 v = Ok cs) vs sofas' ->
+            Forall2 (fun p out => view_out L s c2 p = Ok out) (tag_views wr vs) outs' ->
+            (forall v, In v vs -> In v (c_views c2)) -> (forall o, In o wr -> In o (sofa_arrays c2)) ->
+            view_prefixes L s CC (flat_map (arr_id c2) wr) sofas' = Ok (map fst outs') /\ map snd outs' = map encc_view sofas').
+  { induction vs as [|v r IH]; intros wr sofas' outs' FS' FO' Hvs' Hwr.
+    - assert (Hs' : sofas' = []) by (inversion FS'; reflexivity). assert (Ho' : outs' = []) by (cbn [tag_views] in FO'; inversion FO'; reflexivity).
+      rewrite Hs', Ho'. split; reflexivity.
+    - destruct sofas' as [|cs sr]; [inversion FS'|]. cbn [tag_views] in FO'. destruct outs' as [|out outr]; [inversion FO'|].
+      assert (FS2 : canon_sofa c2 v = Ok cs /\ Forall2 (fun v cs => canon_sofa c2 v = Ok cs) r sr) by (inversion FS'; split; assumption).
+      destruct FS2 as [Ec FSr].
+      assert (FO2 : view_out L s c2 (wr, v) = Ok out /\ Forall2 (fun p out => view_out L s c2 p = Ok out) (tag_views (wr ++ arr_of (wr, v)) r) outr)
+        by (inversion FO'; split; assumption).
+      destruct FO2 as [Eo FOr]. clear FS' FO'.
+      pose proof (Hvs' v (or_introl eq_refl)) as Hv.
+      destruct (view_out_inv _ _ _ _ _ Eo) as (mids & arrs & ms & Emids & Ea & Es & ->). cbn [fst snd] in *.
+      assert (Hai : forall o, s_arr (v_sofa v) = Some o -> exists f i, hget (c_heap c2) o = Some f /\ o_id f = Some i).
+      { intros o Eo'. destruct (Harrs v o Hv Eo') as (f & i & Hg & _ & Hi'). exists f, i. split; assumption. }
+      pose proof (enc_sofa_canon L c2 v ms cs Es Ec Hai) as Hms.
+      pose proof (view_json_canon c2 v mids cs Emids Ec) as Hvj.
+      destruct (canon_sofa_arr _ _ _ Ec) as [Earr _].
+      assert (Hrest : forall x, In x r -> In x (c_views c2)) by (intros x Hx; apply Hvs'; right; exact Hx).
+      cbn [view_prefixes map fst snd]. unfold arr_out in Ea. unfold arr_of in FOr. cbn [fst snd] in Ea, FOr.
+      destruct (s_arr (v_sofa v)) as [o|] eqn:Eo'.
+      + destruct (Harrs v o Hv Eo') as (f & i & Eg & [Ht Hok] & Hi'). rewrite Eg, Hi' in Earr. rewrite Earr.
+        assert (Hoin : In o (sofa_arrays c2)) by (apply Hsa_v; exists v; split; assumption).
+        assert (Hio : arr_id c2 o = [i]) by (unfold arr_id; rewrite Eg, Hi'; reflexivity).
+        assert (Hmem : zmem i (flat_map (arr_id c2) wr) = omem o wr).
+        { destruct (omem o wr) eqn:Eow.
+          - apply zmem_In. apply in_flat_map. exists o. split; [apply omem_In; exact Eow|rewrite Hio; left; reflexivity].
+          - destruct (zmem i (flat_map (arr_id c2) wr)) eqn:Ez; [|reflexivity]. exfalso. apply zmem_In, in_flat_map in Ez.
+            destruct Ez as (o' & Ho' & Hi''). assert (o' = o) by (apply (Harr_inj o' o i (Hwr o' Ho') Hoin Hi''); rewrite Hio; left; reflexivity).
+            subst o'. apply omem_In in Ho'. congruence. }
+        rewrite Hmem. destruct (omem o wr) eqn:Eow.
+        * inversion Ea; subst arrs. rewrite app_nil_r in FOr. destruct (IH wr sr outr FSr FOr Hrest Hwr) as [A B].
+          rewrite A. cbn [bind app]. rewrite Hms, B, Hvj. split; reflexivity.
+        * rewrite Eg in Ea. apply bind_Ok in Ea as (m & Em & Ea). inversion Ea; subst arrs.
+          destruct (mapM_In_l _ _ _ E1 o (proj2 (Hsa_in o) Hoin)) as (p & Hp & Ep). destruct (canon_item_inv _ _ _ _ Ep) as (f' & cf & Eg'' & Hip & Ecf & Esnd).
+          rewrite Eg in Eg''. inversion Eg''; subst f'. rewrite Hi' in Hip. inversion Hip as [Hfst]. destruct p as [ip cfp]. cbn [fst snd] in *. subst cfp ip.
+          assert (Hz : zlookup i (sort_by fst (rs1 ++ rs2)) = Some cf).
+          { rewrite (zlookup_perm i _ (rs1 ++ rs2)); [apply zlookup_nodup; [exact Hnd|apply in_or_app; left; exact Hp]| |apply sort_by_is_perm].
+            eapply Permutation_NoDup; [apply Permutation_map, Permutation_sym, sort_by_is_perm|exact Hnd]. }
+          change (cc_fs CC) with (sort_by fst (rs1 ++ rs2)). rewrite Hz. change (cc_sofas CC) with SL.
+          assert (Hm : m = encc_fs L s SL (i, cf)).
+          { apply (enc_fs_canon L s c2 f i m cf SL Hi' Hok Em Ecf HSO). intros Hna. apply String.eqb_eq in Ht. rewrite Ht in Hna. discriminate. }
+          destruct (IH (wr ++ [o]) sr outr FSr FOr Hrest) as [A B].
+          { intros o' Ho'. apply in_app_or in Ho'. destruct Ho' as [Ho'|[<-|[]]]; [exact (Hwr o' Ho')|exact Hoin]. }
+          rewrite flat_map_app in A. cbn [flat_map] in A. rewrite Hio, app_nil_r in A. cbv beta iota.
+          match goal with |- context [view_prefixes L s CC ?x sr] => replace (view_prefixes L s CC x sr) with (@Ok (list (list json)) (map fst outr)) by (symmetry; exact A) end. cbn [bind app]. rewrite Hm, Hms, B, Hvj. split; reflexivity.
+      + rewrite Earr. inversion Ea; subst arrs. rewrite app_nil_r in FOr. destruct (IH wr sr outr FSr FOr Hrest Hwr) as [A B].
+        rewrite A. cbn [bind app]. rewrite Hms, B, Hvj. split; reflexivity. }
+  destruct (Hper (c_views c2) [] sofas outs FS FO (fun v H => H) (fun o (H : In o []) => match H with end)) as [Hpre Hvj].
+  cbn [flat_map] in Hpre.
   (* the document *)
-  unfold doc_of_canon. fold CC. change (cc_sofas CC) with SL. rewrite Hvs. cbn [bind]. rewrite Hpre. cbn [bind].
-  rewrite Hfound_of, <- Hused, Ety. cbn [bind]. rewrite Hd, <- Hfss, Hvj. reflexivity.
+  unfold doc_of_canon. fold CC. change (cc_sofas CC) with SL. rewrite Hvs. cbn [bind].
+  match goal with |- context [view_prefixes L s CC ?x sofas] => replace (view_prefixes L s CC x sofas) with (@Ok (list (list json)) (map fst outs)) by (symmetry; exact Hpre) end.
+  cbn [bind]. rewrite Hfound_of, Hty2. cbn [bind]. rewrite Hd, <- Hfss, Hvj. reflexivity.
 Qed.
 
 (* ================================================================================================================ *)
@@ -615,6 +735,50 @@ Proof.
   rewrite (Forall2_map_r_eq _ (fun v => s_name (v_sofa v)) cs_name _ _ (mapM_Forall2 _ _ _ Es)
              (fun a b _ H => proj1 (proj2 (proj2 (canon_sofa_fields c a b H))))). apply Permutation_refl.
 Qed.
+(* what the views loop contributes, whatever the order of the views: every sofa once, every sofa byte array once *)
+Fixpoint zdedup (seen l : list xid) : list xid :=
+  match l with
+  | [] => []
+  | a :: r => if zmem a seen then zdedup seen r else a :: zdedup (seen ++ [a]) r
+  end.
+Lemma zdedup_In x l : forall seen, In x (zdedup seen l) <-> In x l /\ ~ In x seen.
+Proof.
+  induction l as [|a r IH]; intros seen; cbn [zdedup]; [cbn [In]; tauto|].
+  destruct (zmem a seen) eqn:E.
+  - rewrite IH. apply zmem_In in E. cbn [In]. split; [tauto|]. intros [[<-|H] Hn]; [contradiction|tauto].
+  - assert (Hn : ~ In a seen) by (intros H; apply zmem_In in H; congruence).
+    cbn [In]. rewrite IH, in_app_iff. cbn [In]. split.
+    + intros [<-|[H1 H2]]; [tauto|]. split; [tauto|]. intros H. apply H2. left. exact H.
+    + intros [[<-|H1] H2]; [left; reflexivity|]. destruct (Z.eq_dec a x) as [->|Hne]; [left; reflexivity|right]. split; [exact H1|]. intros [H|[H|[]]]; [tauto|congruence].
+Qed.
+Lemma zdedup_NoDup l : forall seen, NoDup (zdedup seen l).
+Proof.
+  induction l as [|a r IH]; intros seen; cbn [zdedup]; [constructor|]. destruct (zmem a seen); [apply IH|].
+  constructor; [|apply IH]. intros H. apply zdedup_In in H. destruct H as [_ H]. apply H. apply in_or_app. right. left. reflexivity.
+Qed.
+Lemma zdedup_perm l l' : Permutation l l' -> Permutation (zdedup [] l) (zdedup [] l').
+Proof.
+  intros P. apply NoDup_Permutation; [apply zdedup_NoDup|apply zdedup_NoDup|]. intros x. rewrite !zdedup_In.
+  split; intros [H Hn]; (split; [|exact Hn]); [eapply Permutation_in; [exact P|exact H]|eapply Permutation_in; [apply Permutation_sym; exact P|exact H]].
+Qed.
+Definition arr_entry (L : lex) (s : schema) (cc : ccas) (a : xid) : json :=
+  match zlookup a (cc_fs cc) with Some cf => JObj (encc_fs L s (cc_sofas cc) (a, cf)) | None => JNull end.
+Definition arrs_of (vs : list csofa) : list xid := flat_map (fun cs => match cs_arr cs with Some a => [a] | None => [] end) vs.
+Lemma prefixes_content L s cc : forall vs seen pre, view_prefixes L s cc seen vs = Ok pre ->
+  Permutation (List.concat pre) (map (fun cs => JObj (encc_sofa L cs)) vs ++ map (arr_entry L s cc) (zdedup seen (arrs_of vs))).
+Proof.
+  induction vs as [|cs r IH]; intros seen pre H; cbn [view_prefixes] in H.
+  - inversion H. constructor.
+  - unfold arrs_of. cbn [flat_map map]. fold (arrs_of r). destruct (cs_arr cs) as [a|].
+    + cbn [app zdedup]. destruct (zmem a seen).
+      * apply bind_Ok in H as (rest & Er & H). inversion H; subst pre. cbn [List.concat app]. constructor. exact (IH _ _ Er).
+      * cbn [map]. unfold arr_entry at 1. destruct (zlookup a (cc_fs cc)) as [cf|] eqn:Ez; [|discriminate].
+        apply bind_Ok in H as (rest & Er & H). inversion H; subst pre. cbn [List.concat app].
+        eapply Permutation_trans; [apply perm_swap|]. constructor.
+        eapply Permutation_trans; [|apply Permutation_middle]. constructor. exact (IH _ _ Er).
+    + cbn [app]. apply bind_Ok in H as (rest & Er & H). inversion H; subst pre. cbn [List.concat app]. constructor. exact (IH _ _ Er).
+Qed.
+
 Theorem json_resave_equal_perm L s mode c1 d1 c1' c2 d2 c2' :
   lex_ok L ->
   save_json L s mode c1 = Ok (d1, c1') -> wf_jsonb s c1' = true -> ids_distinctb s c1' = true -> refs_wfb s c1' = true -> 0 < c_next_id c1 ->
@@ -637,10 +801,13 @@ Proof.
   apply bind_Ok in D2 as (vs2 & V2 & D2). apply bind_Ok in D2 as (pre2 & Q2 & D2). apply bind_Ok in D2 as (types' & T2 & D2).
   rewrite T1 in T2. inversion T2; subst types'. inversion D1 as [H1]. inversion D2 as [H2].
   destruct (mapM_perm _ _ _ Po vs1 V1) as (vs2' & V2' & Pv). rewrite V2 in V2'. inversion V2'; subst vs2'.
-  destruct (mapM_perm _ _ _ Pv pre1 Q1) as (pre2' & Q2' & Pp). rewrite Q2 in Q2'. inversion Q2'; subst pre2'.
   exists types, (List.concat pre1), (List.concat pre2), (map (fun p => JObj (encc_fs L s (cc_sofas cc) p)) (found_of cc)),
          (map encc_view vs1), (map encc_view vs2).
-  split; [reflexivity|]. split; [reflexivity|]. split; [apply Permutation_concat; exact Pp|apply Permutation_map; exact Pv].
+  split; [reflexivity|]. split; [reflexivity|]. split; [|apply Permutation_map; exact Pv].
+  eapply Permutation_trans; [exact (prefixes_content L s cc vs1 [] pre1 Q1)|].
+  eapply Permutation_trans; [|apply Permutation_sym; exact (prefixes_content L s cc vs2 [] pre2 Q2)].
+  apply Permutation_app; [apply Permutation_map; exact Pv|]. apply Permutation_map. apply zdedup_perm.
+  unfold arrs_of. apply Permutation_flat_map. exact Pv.
 Qed.
 
 (* the same, as the boolean equivalence of JSON values modulo member order *)
